@@ -42,7 +42,7 @@ def execute(case):
     def log(**e):
         events.append(e)
 
-    RT = {i: type(f"R{i}", (), {}) for i, it in enumerate(items, start=1) if it["kind"] == "res"}
+    RT = {i: type(f"R{i}", (), {}) for i, it in enumerate(items, start=1) if it["kind"] in ("res", "reslate")}
 
     async def main():
         C = get_cancelled_exc_class()
@@ -142,6 +142,21 @@ def execute(case):
                                 if it["kind"] == "res":
                                     def cb(i=i):
                                         log(ev="cb.begin", id=i)
+                                    ctx.add_resource(RT[i](), teardown_callback=cb)
+                                    log(ev="reg", id=i)
+                                elif it["kind"] == "reslate":
+                                    async def cb(i=i):
+                                        # the callback starts one more service task while the owning context is being torn down
+                                        log(ev="cb.begin", id=i)
+                                        k = len(items) + i
+                                        log(ev="svc.start", k=k, action="cancel")
+                                        try:
+                                            if i % 2:
+                                                await ctx.start_service_task(svc_func(k, "forever"), f"late{k}")
+                                            else:
+                                                await start_service_task(svc_func(k, "forever"), f"late{k}", teardown_action="cancel")
+                                        except Exception as e:  # noqa: BLE001
+                                            log(ev="unexpected", what="late start_service_task:" + type(e).__name__)
                                     ctx.add_resource(RT[i](), teardown_callback=cb)
                                     log(ev="reg", id=i)
                                 else:
